@@ -9,7 +9,7 @@ def check(tier, seed):
     streams = [
         dict(name="search_vs_minimax", kind="coqcases",
              shards=lambda t: 4 if t == "quick" else 16,
-             args=lambda t, s, sh, path: ["c06", 14 if t == "quick" else 60, s * 100 + sh, 3 if t == "quick" else 4, 6 if t == "quick" else 24, path],
+             args=lambda t, s, sh, path: ["c06", 40 if t == "quick" else 80, s * 100 + sh, 3 if t == "quick" else 4, 6 if t == "quick" else 24, path],
              timeout=3000),
     ]
     return G.generic_check(PID, "proof", tier, seed,
